@@ -500,6 +500,71 @@ func remainOp(a dsch) *op {
 	return o
 }
 
+// charsetTables: the current state of a table carries a charset and its collation, the desired
+// state names the charset only ("whatever its default collation is").
+func charsetTables(name, collation string) (from, to *schema.Schema) {
+	from = schema.New("app").AddTables(schema.NewTable(name).AddColumns(schema.NewIntColumn("id", "int")).SetCharset("utf8mb4").SetCollation(collation))
+	to = schema.New("app").AddTables(schema.NewTable(name).AddColumns(schema.NewIntColumn("id", "int")).SetCharset("utf8mb4"))
+	return from, to
+}
+
+// charsetPlanOp plans that change with the connection-less MySQL differ and planner (MySQL 8
+// defaults: nothing to do).
+func charsetPlanOp(a dsch) *op {
+	d := dialects[1]
+	o := &op{name: "mysql-charset-default-plan"}
+	o.steps = []func() error{func() error {
+		var b strings.Builder
+		for _, tb := range a.Tables {
+			from, to := charsetTables(tb.Name, "utf8mb4_0900_ai_ci")
+			changes, err := d.diff.SchemaDiff(from, to)
+			if err != nil {
+				return err
+			}
+			fmt.Fprintf(&b, "%s: %d changes\n", tb.Name, len(changes))
+			if len(changes) > 0 {
+				plan, err := d.plan.PlanChanges(context.Background(), "p", changes)
+				if err != nil {
+					return err
+				}
+				b.WriteString(planText(plan))
+			}
+		}
+		o.out = []byte(b.String())
+		return nil
+	}}
+	return o
+}
+
+// connectedElsewhereOp is unrelated work in the same process: a driver opened on another MySQL
+// server (5.7, other charset defaults; see fakesql.go) diffs tables of its own.
+func connectedElsewhereOp(a dsch) *op {
+	o := &op{name: "mysql-connected-to-another-server"}
+	o.steps = []func() error{func() error {
+		db, err := sql.Open("detsim-fake-mysql", "")
+		if err != nil {
+			return err
+		}
+		defer db.Close()
+		drv, err := mysql.Open(db)
+		if err != nil {
+			return err
+		}
+		var b strings.Builder
+		for _, tb := range a.Tables {
+			from, to := charsetTables("other_"+tb.Name, "utf8mb4_general_ci")
+			changes, err := drv.SchemaDiff(from, to)
+			if err != nil {
+				return err
+			}
+			fmt.Fprintf(&b, "%s: %d changes\n", tb.Name, len(changes))
+		}
+		o.out = []byte(b.String())
+		return nil
+	}}
+	return o
+}
+
 var errReplan = errors.New("planning the same change set twice gives different statements")
 
 func planText(p *migrate.Plan) string {
@@ -863,7 +928,7 @@ func (sc scenario) ops(perm func(int) []int) []*op {
 	out = append(out, scopeOp(dialects[1], sc.a), scopeOp(dialects[2], sc.a))
 	out = append(out, realmOp(dialects[1], sc.realm), realmOp(dialects[2], sc.realm))
 	out = append(out, caseTwinOp(dialects[1], sc.a), caseTwinOp(dialects[2], sc.a))
-	out = append(out, opClassOp(sc.a), remainOp(sc.a))
+	out = append(out, opClassOp(sc.a), remainOp(sc.a), charsetPlanOp(sc.a), connectedElsewhereOp(sc.a))
 	return append(out, sumOp(sc.files))
 }
 
